@@ -278,14 +278,23 @@ func main() {
 	}
 	for i, src := range spinners {
 		vm := otto.New()
-		vm.Interrupt = make(chan func(), 1)
+		if i%2 == 0 {
+			vm.Interrupt = make(chan func(), 1)
+		} else {
+			vm.Interrupt = make(chan func()) // unbuffered: the send completes only when the interpreter receives it
+		}
 		type res struct {
 			o Outcome
 		}
 		ch := make(chan res, 1)
 		go func() { ch <- res{RunJS(vm, src)} }()
 		time.Sleep(20 * time.Millisecond)
-		vm.Interrupt <- func() { panic(haltMsg) }
+		go func() {
+			select {
+			case vm.Interrupt <- func() { panic(haltMsg) }:
+			case <-time.After(5 * time.Second):
+			}
+		}()
 		stopped, asPanic, rest := false, false, false
 		select {
 		case r := <-ch:
